@@ -152,7 +152,7 @@ Definition out_header (total : Z) (p : header * list Z) : list Z :=
   out_opt (h_version h) ++ [h_type h; h_length h] ++ out_bytes (h_dcid h) ++ out_bytes (h_scid h) ++
   out_bytes (h_token h) ++ out_bytes (h_tag h) ++ out_bytes (h_versions h) ++ [total - Zlen rest].
 
-Definition exec_header (toks : list Z) : list Z :=
+Definition exec_quic_header (toks : list Z) : list Z :=
   match toks with
   | 0 :: hcl :: t =>
       let '(bs, _) := tk_list t in out_res (out_header (Zlen bs)) (pull_quic_header hcl bs)
@@ -177,4 +177,4 @@ Definition exec_header (toks : list Z) : list Z :=
       out_res out_bytes (flatten (encode_quic_version_negotiation r scid dcid vs))
   | _ => []
   end.
-(* EXTRACT: exec_header *)
+(* EXTRACT: exec_quic_header *)
